@@ -14,6 +14,7 @@ import (
 	"bytes"
 	"runtime"
 	"strconv"
+	"strings"
 	"sync"
 	"time"
 
@@ -197,13 +198,16 @@ func (r *LockRun) Unfinished() []int {
 	return out
 }
 
-// WaitAll gives blocked goroutines a last chance to finish.
+// WaitAll gives running goroutines the chance to finish.  After d it looks at the goroutine dump: as long as
+// some goroutine inside the library is not blocked on a lock (it is merely slow, e.g. on a loaded machine) it
+// keeps waiting, up to 60 s; it returns early once every one of them is blocked (a deadlock) or all have finished.
 func (r *LockRun) WaitAll(n int, d time.Duration) {
 	stop := r.ticker()
 	defer close(stop)
 	r.mu.Lock()
 	defer r.mu.Unlock()
-	deadline := time.Now().Add(d)
+	start := time.Now()
+	nextLook := start.Add(d)
 	for {
 		busy := false
 		for g := 1; g <= n; g++ {
@@ -211,11 +215,44 @@ func (r *LockRun) WaitAll(n int, d time.Duration) {
 				busy = true
 			}
 		}
-		if !busy || time.Now().After(deadline) {
+		if !busy || time.Since(start) > 60*time.Second {
 			return
+		}
+		if time.Now().After(nextLook) {
+			if LibraryGoroutinesAllBlocked("berty.tech/go-ipfs-log.(*IPFSLog)") {
+				return
+			}
+			nextLook = time.Now().Add(d)
 		}
 		r.cond.Wait()
 	}
+}
+
+// LibraryGoroutinesAllBlocked inspects the goroutine dump: every goroutine with a frame matching pattern must be
+// waiting on a lock / semaphore / condition variable / channel; none running or runnable.
+func LibraryGoroutinesAllBlocked(pattern string) bool {
+	dump := Stacks()
+	found := false
+	for _, g := range strings.Split(dump, "\n\n") {
+		if !strings.Contains(g, pattern) {
+			continue
+		}
+		found = true
+		head := g
+		if i := strings.Index(g, "\n"); i > 0 {
+			head = g[:i]
+		}
+		blocked := false
+		for _, st := range []string{"semacquire", "sync.Cond.Wait", "sync.Mutex.Lock", "sync.RWMutex", "chan receive", "select", "sync.WaitGroup"} {
+			if strings.Contains(head, st) {
+				blocked = true
+			}
+		}
+		if !blocked {
+			return false
+		}
+	}
+	return found
 }
 
 // Stacks returns the stack dump of all goroutines (deadlock confirmation).
